@@ -108,7 +108,8 @@ def scale_metamorphic(ctx, stream, count, rng):
         if why:
             bad += 1
             ctx.checker_false += 1
-            ctx.report(stream, case, str(sc[1:]), str(base[1:]), '%s: %s' % (e['name'], why))
+            ctx.report(stream, case, str(sc[1:]), str(base[1:]), '%s: %s' % (e['name'], why),
+                       known_class=lambda c, io, mo: 'C11-mj-default-scale' if c.get('evaluator') == 'mj_default' else None)
         elif len(ctx.samples) < 3 and tie and k > 2 ** 53:
             ctx.samples.append(dict(stream=stream, case=case, impl=str(sc[1]), model='same as unscaled: ' + str(base[1])))
     ctx.streams[stream] = dict(cases=n, deviations=bad)
